@@ -265,3 +265,9 @@ def run(ctx):
         # a sender that is dropped leaves the remote attached and linked while nothing is ever written to it again (F61)
         uplinks.writer_token(r, ctx)
 
+    with ctx.rule("C04.R14", "T2", "a lane event is handed to every remote linked to the lane, whether or not an earlier remote's writer is busy", floor=2) as r:
+        _rt = ctx.crate("swimos_runtime")
+        _he = ctx.saw(_rt.fn(name="handle_event", self_adt="task::WriteTaskState"))
+        uplinks.broadcast_visits_every_target(r, ctx, _rt, _he)
+
+
